@@ -573,6 +573,9 @@ fn gen_field(rng: &mut Rng, n: u32, idx: usize, arb_only: bool) -> Option<Field>
         for _ in 0..10 {
             let stride = if bias_top {
                 max_stride
+            } else if allow_overlap && rng.chance(1, 4) {
+                // degenerate but accepted: every element aliases the same bits
+                0
             } else {
                 rng.range(1, max_stride as u64) as u32
             };
@@ -1067,7 +1070,7 @@ mod tests {
                         assert_eq!(a.stride, w);
                     }
                 } else {
-                    assert!(a.explicit && a.stride >= 1);
+                    assert!(a.explicit);
                 }
             }
         }
